@@ -366,7 +366,7 @@ func (d *Decoder) DecodeFixed64() (uint64, error) {
 //
 // io.ErrUnexpectedEOF is returned if the operation would read past the end of the data.
 func (d *Decoder) DecodeFloat32() (float32, error) {
-	if d.offset >= len(d.p) {
+	if d.offset+4 > len(d.p) {
 		return 0, io.ErrUnexpectedEOF
 	}
 	v := binary.LittleEndian.Uint32(d.p[d.offset:])
@@ -379,7 +379,7 @@ func (d *Decoder) DecodeFloat32() (float32, error) {
 //
 // io.ErrUnexpectedEOF is returned if the operation would read past the end of the data.
 func (d *Decoder) DecodeFloat64() (float64, error) {
-	if d.offset >= len(d.p) {
+	if d.offset+8 > len(d.p) {
 		return 0, io.ErrUnexpectedEOF
 	}
 	v := binary.LittleEndian.Uint64(d.p[d.offset:])
@@ -815,7 +815,7 @@ func (d *Decoder) DecodePackedFloat32() ([]float32, error) { //nolint: dupl // F
 	packedDataStart := d.offset
 	res = make([]float32, 0, l/4)
 	for nRead < l {
-		if d.offset >= len(d.p) {
+		if d.offset+4 > len(d.p) {
 			return nil, io.ErrUnexpectedEOF
 		}
 		v := binary.LittleEndian.Uint32(d.p[d.offset:])
@@ -853,7 +853,7 @@ func (d *Decoder) DecodePackedFloat64() ([]float64, error) {
 	d.offset += n
 	packedDataStart := d.offset
 	for nRead < l {
-		if d.offset >= len(d.p) {
+		if d.offset+8 > len(d.p) {
 			return nil, io.ErrUnexpectedEOF
 		}
 		v := binary.LittleEndian.Uint64(d.p[d.offset:])
